@@ -1,0 +1,31 @@
+//go:build verif
+
+package commonprefix
+
+// Contracts for GoVC (see /verif/DESIGN.md). Comment-only: compiles to nothing.
+// Strings are byte sequences; s[i] is a byte; hasprefix is byte-wise.
+//
+//@ func Prefix
+//@   props C19
+//@   ensures empty: len(strs) == 0 ==> len(result) == 0
+//@   ensures common: forall k: int :: 0 <= k && k < len(strs) ==> hasprefix(strs[k], result)
+//@   ensures longest: forall q: string {trig(q)} :: trig(q) && len(strs) > 0 && (forall k: int :: 0 <= k && k < len(strs) ==> hasprefix(strs[k], q)) ==> len(q) <= len(result)
+//@   loop 1 invariant idx: 0 - 1 <= rangeindex && rangeindex < len(strs)
+//@   loop 1 invariant member: exists k: int :: 0 <= k && k < len(strs) && same(short, strs[k])
+//@   loop 1 invariant shortest: forall j: int :: 0 <= j && j <= rangeindex ==> len(short) <= len(strs[j])
+//@   loop 2 invariant idx: 0 <= i && i <= len(short)
+//@   loop 2 invariant pfx: len(prefix) == i && (forall j: int :: 0 <= j && j < i ==> prefix[j] == short[j])
+//@   loop 2 invariant old: same(prefix, old_prefix)
+//@   loop 2 invariant common: forall k: int :: 0 <= k && k < len(strs) ==> hasprefix(strs[k], prefix)
+//@   loop 3 invariant idx: 0 - 1 <= rangeindex && rangeindex < len(strs)
+//@   loop 3 invariant sofar: forall k: int :: 0 <= k && k <= rangeindex ==> hasprefix(strs[k], prefix)
+//
+//@ func TrimPrefix
+//@   props C19
+//@   modifies elems(string)
+//@   ensures common: forall k: int :: 0 <= k && k < len(strs) ==> hasprefix(old(strs[k]), p)
+//@   ensures longest: forall q: string {trig(q)} :: trig(q) && len(strs) > 0 && (forall k: int :: 0 <= k && k < len(strs) ==> hasprefix(old(strs[k]), q)) ==> len(q) <= len(p)
+//@   ensures trimmed: forall k: int :: 0 <= k && k < len(strs) ==> len(strs[k]) == len(old(strs[k])) - len(p) && (forall j: int :: 0 <= j && j < len(strs[k]) ==> strs[k][j] == old(strs[k])[j + len(p)])
+//@   loop 1 invariant idx: 0 - 1 <= rangeindex && rangeindex < len(strs)
+//@   loop 1 invariant done: forall k: int :: 0 <= k && k <= rangeindex ==> len(strs[k]) == len(old(strs[k])) - len(p) && (forall j: int :: 0 <= j && j < len(strs[k]) ==> strs[k][j] == old(strs[k])[j + len(p)])
+//@   loop 1 invariant rest: forall k: int :: rangeindex < k && k < len(strs) ==> same(strs[k], old(strs[k]))
